@@ -8,6 +8,10 @@ mod routing;
 
 pub use components::I18nRoute;
 
+#[cfg(feature = "verif_hooks")]
+#[doc(hidden)]
+pub use routing::__verif;
+
 /// Create a route segment that is possible to define based on a locale.
 ///
 /// ```rust, ignore
